@@ -44,6 +44,7 @@ import (
 	"go.6river.tech/mmmbbb/ent"
 	"go.6river.tech/mmmbbb/faults"
 	mbgrpc "go.6river.tech/mmmbbb/grpc"
+	"go.6river.tech/mmmbbb/ent/subscription"
 	"go.6river.tech/mmmbbb/grpc/pubsubpb"
 	"go.6river.tech/mmmbbb/internal"
 	"go.6river.tech/mmmbbb/internal/sqltypes"
@@ -652,6 +653,29 @@ func (r *runner) runCfg(ctx context.Context, idx int, cs *Case) Result {
 				} else {
 					c.compareSub(st.Want.Sub[ri], listed)
 				}
+			}
+		}
+		// enforcement probe: after a create, or an update that names expiration_policy, the stored
+		// expiry instant must be "now + the TTL that Get reports" (what is shown is what is enforced)
+		expInMask := false
+		for _, p := range st.Mask {
+			if p == "expiration_policy" {
+				expInMask = true
+			}
+		}
+		if st.Op == "create" || (st.Op == "update" && expInMask) {
+			row, err := r.w.Client.Subscription.Query().Where(subscription.Name(subName), subscription.DeletedAtIsNil()).Only(ctx)
+			if err != nil {
+				return fail(fmt.Errorf("subscription row: %w", err))
+			}
+			res.Evals++
+			shown := got.GetExpirationPolicy().GetTtl().AsDuration()
+			left := time.Until(row.ExpiresAt)
+			if d := left - shown; d > 20*time.Second || d < -20*time.Second {
+				mm := Mismatch{Step: st.K, Op: st.Op, Via: "get", Field: "expiration_policy.enforced", Class: st.Req.Exp, InMask: expInMask, Mask: st.Mask,
+					Want: "expires in " + shown.String() + " (the reported TTL)", Got: "expires in " + left.Round(time.Second).String()}
+				res.MMB = append(res.MMB, mm)
+				res.MMA = append(res.MMA, mm)
 			}
 		}
 		if st.Want.Topic.Live {
